@@ -1279,9 +1279,11 @@ func runVerify(r *rand.Rand, dir string, n int) {
 			if c1.Size == c2.Size {
 				kind = "equal"
 			} else {
-				x := append([]byte{}, b[c1.Start:c1.Start+c1.Size]...)
-				copy(b[c1.Start:], b[c2.Start:c2.Start+c1.Size])
-				_ = x
+				end := c2.Start + c1.Size
+				if end > uint64(len(b)) {
+					end = uint64(len(b))
+				}
+				copy(b[c1.Start:], append([]byte{}, b[c2.Start:end]...))
 			}
 		case "empty":
 			b = nil
